@@ -83,6 +83,63 @@ fn dp_conn(c: &ConnCase) -> dr::ConnectionInfo {
     }
 }
 
+/// field-wise rendering of deadpool's description (its Debug output is not contractual and
+/// may, for instance, hide the password)
+fn dp_repr(c: &dr::ConnectionInfo) -> String {
+    let addr = match &c.addr {
+        dr::ConnectionAddr::Tcp(h, p) => format!("tcp {:?} {}", h, p),
+        dr::ConnectionAddr::TcpTls { host, port, insecure } => format!("tls {:?} {} insecure={}", host, port, insecure),
+        dr::ConnectionAddr::Unix(p) => format!("unix {:?}", p),
+    };
+    let proto = match c.redis.protocol {
+        dr::ProtocolVersion::RESP2 => 2,
+        dr::ProtocolVersion::RESP3 => 3,
+    };
+    format!("{} db={} user={:?} password={:?} resp{}", addr, c.redis.db, c.redis.username, c.redis.password, proto)
+}
+
+/// Does the Debug output of a manager show the named server? Only what the output renders in
+/// the redis crate's own format is judged; a component it does not show that way (a masked
+/// password, a different layout) is skipped.
+fn manager_shows(dbg: &str, info: &redis::ConnectionInfo) -> Result<bool, String> {
+    let whole = format!("{:?}", info);
+    if dbg.contains(&whole) {
+        return Ok(true);
+    }
+    let mut judged = false;
+    let addr = format!("addr: {:?}", info.addr);
+    if dbg.contains("addr: ") {
+        judged = true;
+        if !dbg.contains(&addr) {
+            return Err(format!("address {:?} not shown", info.addr));
+        }
+    }
+    for (key, want) in [
+        ("db: ", format!("db: {}", info.redis.db)),
+        ("username: ", format!("username: {:?}", info.redis.username)),
+        ("protocol: ", format!("protocol: {:?}", info.redis.protocol)),
+    ] {
+        if dbg.contains(key) {
+            judged = true;
+            if !dbg.contains(&want) {
+                return Err(format!("`{}` not shown", want));
+            }
+        }
+    }
+    // a password is judged only where it is rendered as a plain Option<String>
+    for (i, _) in dbg.match_indices("password: ") {
+        let rest = &dbg[i + "password: ".len()..];
+        if rest.starts_with("None") || rest.starts_with("Some(\"") {
+            judged = true;
+            let want = format!("{:?}", info.redis.password);
+            if !rest.starts_with(&want) {
+                return Err("another password shown".into());
+            }
+        }
+    }
+    Ok(judged)
+}
+
 /// the redis crate's value, built by hand (independent of deadpool's From impls)
 fn rd_conn(c: &ConnCase) -> redis::ConnectionInfo {
     redis::ConnectionInfo {
@@ -223,9 +280,10 @@ fn check_inner(c: &RedisCase, v: &mut Verdict) {
                                 Err(e) => v.fail("build-failed", format!("build() failed: {:?}", e)),
                                 Ok(pool) => {
                                     let dbg = format!("{:?}", pool.manager());
-                                    let want = format!("{:?}", info);
-                                    if !dbg.contains(&want) {
-                                        v.fail("wrong-server", format!("manager is {} but the named server is {}", dbg, want));
+                                    match manager_shows(&dbg, info) {
+                                        Ok(true) => {}
+                                        Ok(false) => v.label("manager-debug-not-readable"),
+                                        Err(why) => v.fail("wrong-server", format!("manager is {} but the named server is {:?} ({})", dbg, info, why)),
                                     }
                                     let want_max = max_size.map(|m| m as usize).unwrap_or(PoolConfig::default().max_size);
                                     if pool.status().max_size != want_max {
@@ -316,8 +374,8 @@ fn check_inner(c: &RedisCase, v: &mut Verdict) {
                     v.fail("conversion-wrong", format!("deadpool -> redis produced {:?}, expected {:?}", r, rd_conn(conn)));
                 }
                 let d1: dr::ConnectionInfo = r.into();
-                if format!("{:?}", d0) != format!("{:?}", d1) {
-                    v.fail("roundtrip-lossy", format!("deadpool -> redis -> deadpool changed {:?} into {:?}", d0, d1));
+                if dp_repr(&d0) != dp_repr(&d1) {
+                    v.fail("roundtrip-lossy", format!("deadpool -> redis -> deadpool changed {} into {}", dp_repr(&d0), dp_repr(&d1)));
                 }
             }
         }
@@ -346,8 +404,23 @@ fn check_inner(c: &RedisCase, v: &mut Verdict) {
                     v.fail("conversion-wrong", format!("deadpool -> redis produced {}, expected {}", repr(&r), repr(&rd_node(node))));
                 }
                 let d1: dr::sentinel::SentinelNodeConnectionInfo = r.into();
-                if format!("{:?}", d0) != format!("{:?}", d1) {
-                    v.fail("roundtrip-lossy", format!("deadpool -> redis -> deadpool changed {:?} into {:?}", d0, d1));
+                fn node_repr(n: &dr::sentinel::SentinelNodeConnectionInfo) -> String {
+                    let tls = match n.tls_mode {
+                        None => "none",
+                        Some(dr::sentinel::TlsMode::Secure) => "secure",
+                        Some(dr::sentinel::TlsMode::Insecure) => "insecure",
+                    };
+                    let info = n.redis_connection_info.as_ref().map(|r| {
+                        let proto = match r.protocol {
+                            dr::ProtocolVersion::RESP2 => 2,
+                            dr::ProtocolVersion::RESP3 => 3,
+                        };
+                        format!("db={} user={:?} password={:?} resp{}", r.db, r.username, r.password, proto)
+                    });
+                    format!("tls={} info={:?}", tls, info)
+                }
+                if node_repr(&d0) != node_repr(&d1) {
+                    v.fail("roundtrip-lossy", format!("deadpool -> redis -> deadpool changed {} into {}", node_repr(&d0), node_repr(&d1)));
                 }
             }
         }
